@@ -601,8 +601,14 @@ func CanonicalIsomorphAllocated(n, m int, neighbours [][]int, op *CanonicalOrder
 		}
 	}
 	for {
+		if worse {
+			verifCanon("node", len(path), 1, op.order, op.binDividers)
+		} else {
+			verifCanon("node", len(path), 0, op.order, op.binDividers)
+		}
 		if !worse && len(op.binDividers) == n {
 			count++
+			verifCanon("leaf", len(path), 0, op.order, op.value)
 			//Are we the new best?
 			if comp := ints.Compare(op.value, currentBest); comp == 1 {
 				currentBest = currentBest[:m]
@@ -668,6 +674,7 @@ func CanonicalIsomorphAllocated(n, m int, neighbours [][]int, op *CanonicalOrder
 				}
 				path = path[:index+1]
 				choices = choices[:index+1]
+				verifCanon("jump", index+1, 0, nil, nil)
 			} else if comp2 := ints.Compare(op.value, firstLeaf); comp2 == 0 {
 				//We will find the point in the path where they first differ. This must be somewhere as they are not the same leaf.
 
@@ -707,6 +714,7 @@ func CanonicalIsomorphAllocated(n, m int, neighbours [][]int, op *CanonicalOrder
 				}
 				path = path[:index+1]
 				choices = choices[:index+1]
+				verifCanon("jump", index+1, 0, nil, nil)
 			}
 		} else if !worse {
 			//We are not a leaf so we need to split.
@@ -752,6 +760,7 @@ func CanonicalIsomorphAllocated(n, m int, neighbours [][]int, op *CanonicalOrder
 				//Heuristic 2
 				if count > 0 && ints.HasPrefix(firstLeafPath, path[:len(path)-1]) {
 					if firstLeafOrbits[choiceElement] >= 0 {
+						verifCanonVertex("prune", len(path)-1, 1, choiceElement)
 						skipDeage = true
 						continue jLoop
 					}
@@ -762,6 +771,7 @@ func CanonicalIsomorphAllocated(n, m int, neighbours [][]int, op *CanonicalOrder
 				//Heuristic 2
 				if count > 0 && !ints.HasPrefix(firstLeafPath, path[:len(path)-1]) && ints.HasPrefix(currentBestPath, path[:len(path)-1]) {
 					if currentBestOrbits[choiceElement] >= 0 {
+						verifCanonVertex("prune", len(path)-1, 2, choiceElement)
 						skipDeage = true
 						continue jLoop
 					}
@@ -770,6 +780,11 @@ func CanonicalIsomorphAllocated(n, m int, neighbours [][]int, op *CanonicalOrder
 				//Success
 				worse := op.splitBin(choicePosition, neighbours, currentBest, firstLeaf)
 				path[len(path)-1] = j
+				if worse {
+					verifCanonVertex("ind", len(path)-1, 1, choiceElement)
+				} else {
+					verifCanonVertex("ind", len(path)-1, 0, choiceElement)
+				}
 				//Is the incremental leaf certificate worse?
 				if worse {
 					//Don't accept this step.
@@ -786,6 +801,7 @@ func CanonicalIsomorphAllocated(n, m int, neighbours [][]int, op *CanonicalOrder
 			} else {
 				skipDeage = false
 			}
+			verifCanon("close", len(path)-1, 0, nil, nil)
 			path = path[:len(path)-1]
 			choices = choices[:len(choices)-1]
 		}
